@@ -1111,6 +1111,9 @@ def run(an: Analysis, rep):
     from . import line_fold as _lf11
     rep.run(_lf11.hand_tables_rule, an, rep)
     from . import c02 as _c02p
+    from . import c03 as _c03w2
+    rep.run(_c03w2.r035, an, _SR(rep, "R11.W2", "operand-width thresholds of the size function both sides use (shared with C03's R03.5): an operand of exactly 255 written with a prefix is other bytes than "
+                                               "the code object had, although both sides agree and the round trip decodes fine"))
     shx11 = _SR(rep, "R11.X", "code units and operands the data cannot describe are refused by from_code, not repaired (shared with C02's R02.8 / C09's R09.7): prefixes behind the last instruction, a fourth "
                               "prefix, an operand that wrapped around to a negative table index - 'never returns silently lossy data'")
     rep.run(_c02p.r02p, an, shx11)
